@@ -1,7 +1,7 @@
 ------------------------------ MODULE LayoutBox ------------------------------
 (***************************************************************************)
 (* The configuration box for layout handlers: array rank, global shape,    *)
-(* process grid (as the nprocs list the code receives, length 1 or 2) and  *)
+(* process grid (as the nprocs list the code receives, length 1 or 2, or any length with MaxNpLenFull) and  *)
 (* a set of dimension orderings the constructor accepts (connected under   *)
 (* single-hop compatibility, every process count <= every extent it must   *)
 (* split).  Used to enumerate (or sample) initial states for C01-C04.      *)
@@ -18,22 +18,28 @@ Reach(seen, lays, P) ==
 Connected(lays, P) == lays = {} \/ Reach({CHOOSE o \in lays : TRUE}, lays, P) = lays
 
 \* every distributed position splits an extent at least as large as its process count, in every layout
-Fits(sh, lays, P) == \A o \in lays : \A i \in 1..Len(sh) : P[i] <= sh[o[i]]
+GridFits(sh, lays, P) == \A o \in lays : \A i \in 1..Len(sh) : P[i] <= sh[o[i]]
 
 Admissible(c) ==
     /\ Len(c.np) <= c.nd - 1 \/ c.nd > 2
     /\ Len(c.np) < c.nd
     /\ Cardinality(c.lays) >= 2
-    /\ Fits(c.sh, c.lays, Pad(c.np, c.nd))
+    /\ GridFits(c.sh, c.lays, Pad(c.np, c.nd))
     /\ Connected(c.lays, Pad(c.np, c.nd))
 
+\* process-grid list length: the driver's grids have 1 or 2 entries; MaxNpLenFull (cfg: MaxNpLen <- MaxNpLenFull) allows every length
+\* the constructor accepts (up to nd - 1 distributed positions).  AnyFits (cfg: GridFits <- AnyFits) also admits over-decomposed grids
+\* (more processes than points along a direction: blocks of length 0).
+MaxNpLen(nd) == IF nd = 2 THEN 1 ELSE 2
+MaxNpLenFull(nd) == nd - 1
+AnyFits(sh, lays, P) == TRUE
 NProcs(maxp, maxlen) == UNION {[1..k -> 1..maxp] : k \in 1..maxlen}
 
 ShapeBox(nd, sh, maxp, maxlay) ==
-    {c \in [nd : {nd}, sh : {sh}, np : NProcs(maxp, IF nd = 2 THEN 1 ELSE 2),
+    {c \in [nd : {nd}, sh : {sh}, np : NProcs(maxp, MaxNpLen(nd)),
             lays : {L \in SUBSET Perms(nd) : Cardinality(L) >= 2 /\ Cardinality(L) <= maxlay}] : Admissible(c)}
 FullBox(nd, maxext, maxp, maxlay) ==
-    {c \in [nd : {nd}, sh : [1..nd -> 1..maxext], np : NProcs(maxp, IF nd = 2 THEN 1 ELSE 2),
+    {c \in [nd : {nd}, sh : [1..nd -> 1..maxext], np : NProcs(maxp, MaxNpLen(nd)),
             lays : {L \in SUBSET Perms(nd) : Cardinality(L) >= 2 /\ Cardinality(L) <= maxlay}] : Admissible(c)}
 
 \* one random candidate configuration (may be inadmissible; filtered by the caller)
@@ -42,5 +48,5 @@ RandomCfg(nds, maxext, maxp, maxlay) ==
         k  == RandomElement(2..maxlay)
         ls == {RandomElement(Perms(nd)) : j \in 1..k}
     IN  [nd |-> nd, sh |-> [i \in 1..nd |-> RandomElement(1..maxext)],
-         np |-> RandomElement(NProcs(maxp, IF nd = 2 THEN 1 ELSE 2)), lays |-> ls]
+         np |-> RandomElement(NProcs(maxp, MaxNpLen(nd))), lays |-> ls]
 =============================================================================
